@@ -31,6 +31,44 @@ def small_scope(run, proj, why):
                                 'exhaustive_up_to_length': 2 if run.tier == 'quick' else 3}
 
 
+def binary_pass(run, prop):
+    """FLAT inputs of large size (no operator chains or nesting: the property excludes depth beyond a few hundred) through the built `rrss lint` with the process's ORDINARY stack (the harness runs with an
+    unlimited stack so that deep nesting, which the property excludes, does not overflow): long runs of ignorable characters,
+    blanks, line breaks, apostrophes, words, comments, one construct repeated N times. The process must end by itself
+    (exit status of a normal end or of the error path), not by a signal or a panic."""
+    import subprocess, tempfile, os
+    rc, out, err = common.sh('cargo build --offline', cwd=common.REPO, timeout=1800)
+    if rc != 0:
+        raise common.BuildError('rrss binary does not build: ' + err[-2000:])
+    binp = os.path.join(common.REPO, 'target', 'debug', 'rrss')
+    big = [2000, 20000, 200000] if run.tier == 'quick' else [2000, 7000, 20000, 100000, 500000]
+    texts_ = []
+    for n in big:
+        for unit in ['?', '!', ';', "'", ' ', '\t', '\n', '?! ', "' ", '; \n', '.', ',', '(c) ', '"s" ', 'x ', 'x\n', '5 ', 'é ']:
+            texts_.append(('gap:%r' % unit, n, 'say x' + unit * n + ' y\n'))
+            texts_.append(('lead:%r' % unit, n, unit * n + 'say x\n'))
+    for k, n, t in texts.scale_programs(run.tier == 'quick'):
+        if not k.startswith(('nested', 'nots', 'subscript', 'operands', 'arguments', 'list-elements', 'params')):
+            texts_.append((k, n, t))
+    os.makedirs(common.WORK, exist_ok=True)
+    with tempfile.TemporaryDirectory(dir=common.WORK) as td:
+        for i, (k, n, t) in enumerate(texts_):
+            path = os.path.join(td, 'b%d.rock' % i)
+            with open(path, 'w', encoding='utf-8') as f:
+                f.write(t)
+            try:
+                # (`lint` = parse + the linter; `parse` would also pretty-print the tree)
+                p = subprocess.run([binp, 'lint', path], capture_output=True, timeout=120)
+                code = p.returncode
+            except subprocess.TimeoutExpired:
+                code = 'timeout'
+            run.case(('binary', k, n), True, kind='binary-ordinary-stack')
+            if code == 'timeout' or code < 0 or code in (101, 134, 139):
+                run.fail({'kind': k, 'repeated': n, 'text_head': t[:60], 'exit': code, 'stderr': (p.stderr[-300:].decode('utf-8', 'replace') if code != 'timeout' else '')},
+                         '`rrss lint` on a flat input of %d repetitions of %s does not end normally (exit %s)' % (n, k, code))
+    run.extra['binary_pass'] = len(texts_)
+
+
 LAYOUT_LINES = ['f takes x', 'if x', 'else', 'while x', 'say 1', '', 'give back x', 'say 2']
 
 
@@ -126,6 +164,7 @@ def c01(run):
                 if len(f) < 4 or f[3] == 'crash' or len(f[3]) <= 1:
                     run.fail({'text': t, 'profile': prof, 'answer': r}, 'parse error message cannot be rendered')
     small_scope(run, lambda r: 'returns' if first_word(r) in ('ok', 'err') else 'crash:' + r[:40], 'totality')
+    binary_pass(run, 'C01')
 
 
 # ----------------------------------------------------------------------------- C12
@@ -257,6 +296,7 @@ def c12(run):
                 'texts from the C01 generator biased to multi-line strings/comments followed by suffix tokens, '
                 'multi-byte characters, CR/LF, tokens at end of input; non-trivial = contains a multi-line token, a suffix '
                 'token or a multi-byte character; distinct by text')
+    binary_pass(run, 'C12')
     reqs = ['lex ' + hx(t) for t in cases]
 
     def proj12(r):
